@@ -622,10 +622,10 @@ func Decode(b []byte) (*Table, error) {
 				return nil, bad("object id prefix %x occurs in refs but not in the object index", k)
 			}
 		}
-	} else if t.ObjIDLen != 0 && objPos == 0 {
-		// tolerated: writers may leave the length set without a section? No: require 0.
-		return nil, bad("object id length %d without an obj section", t.ObjIDLen)
 	}
+	// An object-id length in the footer without an obj section is tolerated: the field is only
+	// meaningful together with a section (the Go writer leaves 1 there when an indexed ref section
+	// holds no object ids at all, e.g. only symrefs and deletions).
 	return t, nil
 }
 
